@@ -11,6 +11,7 @@
 //  2  GCM decrypt: no update hands data to the primitive or returns plaintext; decryptFinal refuses input shorter than the tag,
 //     otherwise gives exactly the first n - tagBytes bytes to the primitive as ciphertext and installs exactly the last
 //     tagBytes bytes as the expected tag; the result is the model's tag verdict; accepted => plaintext of exactly those bytes
+//     (-DGCMPHASE=1 / 2 split this into 'updates, all splits: the AEAD buffer is the whole input' and 'final after one update')
 //  5  CTR counter budget: checkMaximumBytes(b) is true iff (bytes processed so far) + b <= (2^counterBits - counter part of the
 //     IV) * block size, i.e. an update that would wrap the counter is refused (counterBits 1..8), and true when counterBits == 0
 //  6  state machine / parameter refusal: update / final without init fail and never reach the primitive; an IV that is neither
@@ -38,10 +39,18 @@ void softHSMLog(const int, const char*, const char*, const int, const char*, ...
 #ifndef DIR
 #define DIR 0
 #endif
+#ifndef TAGB
+#define TAGB 0
+#endif
+#ifndef GCMPHASE
+#define GCMPHASE 0      // OP 2: 0 = updates + final in one obligation; 1 = updates only (all splits): the AEAD buffer holds the whole input; 2 = final from ONE update
+#endif
 #ifdef L0
 #define PINNED 1      // split shape fixed by -DL0 -DL1 -DL2
+#define PTOTAL (L0 + L1 + L2)
 #else
 #define PINNED 0
+#define PTOTAL 0
 #endif
 enum { DCAP = 2 * BLK, GCAP = MSGCAP + TAGCAP, OUTCAP = DCAP + 2 * BLK + TAGCAP };
 #define IS_BLOCK (MODE == SymMode::CBC || MODE == SymMode::ECB)
@@ -71,7 +80,7 @@ static void choose_params(bool anyIvLen)
 	IV.resize(ivl); for (size_t i = 0; i < IVCAP; i++) { ivb[i] = nondet_uchar(); if (i < ivl) IV[i] = ivb[i]; }
 	aal = nondet_uchar(); vassume(aal <= AADCAP);
 	AAD.resize(aal); for (size_t i = 0; i < AADCAP; i++) { aadb[i] = nondet_uchar(); if (i < aal) AAD[i] = aadb[i]; }
-	tagBytes = IS_GCM ? 1 + nondet_uchar() % TAGCAP : 0;
+	tagBytes = IS_GCM ? (TAGB ? TAGB : 1 + nondet_uchar() % TAGCAP) : 0;      // -DTAGB pins the tag length
 	padding = nondet_bool();
 	// what the primitive must see as IV: the caller's bytes, or one zero block when the caller gave none (ECB takes no IV)
 	eivlen = MODE == SymMode::ECB ? 0 : (ivl ? ivl : BLK);
@@ -111,6 +120,9 @@ extern "C" void harness(void)
 	static unsigned char src[GCAP > DCAP ? GCAP : DCAP];
 	const size_t cap = OP == 0 ? MSGCAP : (OP == 1 ? DCAP : GCAP);
 	choose_params(false); choose_split(cap);
+#if OP == 2 && GCMPHASE == 2
+	vassume(nparts == 1);        // decryptFinal depends on the updates only through the state asserted by phase 1
+#endif
 	for (size_t i = 0; i < sizeof src; i++) src[i] = nondet_uchar();
 #if FAILS
 	eg.failInit = nondet_bool(); eg.failUpdate = nondet_bool(); eg.failFinal = nondet_bool();   // a failing primitive: the call fails, the operation is gone, the context released
@@ -141,6 +153,17 @@ extern "C" void harness(void)
 		vassert(c->nin == off);
 #endif
 	}
+#if OP == 2 && GCMPHASE != 2
+	// everything decryptFinal will look at is independent of the split: the buffer is the whole input, in order
+	vassert(ci.currentAEADBuffer.size() == total && ci.currentBufferSize == total && ci.currentTagBytes == tagBytes && ci.currentCipherMode == SymMode::GCM && ci.currentOperation == SymmetricAlgorithm::DECRYPT && ci.pCurCTX == c);
+	for (size_t j = 0; j < GCAP; j++) if (j < total && j < ci.currentAEADBuffer.size()) vassert(ci.currentAEADBuffer[j] == src[j]);
+	vassert(eg.nUpdate == eg.nAad && eg.nFinal == 0 && eg.nCtrl == 1 && c->live && !c->tagSet);
+#if GCMPHASE == 1
+	vreach();
+	if (total == GCAP && nparts == 3 && len[1] == 0) vreach();
+	return;
+#endif
+#endif
 #if OP == 0
 	ByteString fin; if (nondet_bool()) fin.resize(3);
 	ok = ci.encryptFinal(fin);
@@ -157,10 +180,10 @@ extern "C" void harness(void)
 		{
 			unsigned char ctf = ref_fold(all, total, MSGCAP), af = ref_fold(aadb, aal, AADCAP);
 			for (size_t i = 0; i < TAGCAP; i++) if (i < tagBytes) vassert(all[total + i] == ref_tag(K, af, aal, ctf, total, i));   // tag AFTER the ciphertext
-			if (tagBytes == TAGCAP && aal == AADCAP && total == MSGCAP) vreach();
+			if (!PINNED && tagBytes == TAGCAP && aal == AADCAP && total == MSGCAP) vreach();
 		}
 		vreach();
-		if (total == MSGCAP && nparts == 3 && len[0] == 1 && len[1] == 0) vreach();
+		if (!PINNED && total == MSGCAP && nparts == 3 && len[0] == 1 && len[1] == 0) vreach();
 		if (!PINNED && total == 0) vreach();
 	}
 	if (!PINNED && partial) vreach();
@@ -190,7 +213,7 @@ extern "C" void harness(void)
 			append(fin);
 			vassert(nall == outlen);
 			for (size_t j = 0; j < DCAP; j++) if (j < outlen) vassert(all[j] == pt[j]);
-			vreach();
+			if (!PINNED || !IS_BLOCK || PTOTAL % BLK == 0) vreach();
 			if (!PINNED && total == DCAP && nparts == 3 && len[1] == 0) vreach();
 		}
 		else if (!valid) vreach();
@@ -199,7 +222,7 @@ extern "C" void harness(void)
 	ByteString fin; if (nondet_bool()) fin.resize(3);
 	ok = ci.decryptFinal(fin);
 	vassert(idle()); vassert(!eg.badctx && !eg.overflow && !eg.overrun);
-	if (total < tagBytes) { vassert(!ok && eg.dataCalls == 0 && !c->tagSet); if (!PINNED) vreach(); }      // shorter than the tag: refused, primitive untouched
+	if (total < tagBytes) { vassert(!ok && eg.dataCalls == 0 && !c->tagSet); if (!PINNED || PTOTAL == 0) vreach(); }      // shorter than the tag: refused, primitive untouched
 	else if (eg.failUpdate || eg.failFinal) vassert(!ok);
 	else
 	{
@@ -213,12 +236,12 @@ extern "C" void harness(void)
 		if (ok)
 		{
 			vassert(fin.size() == n);
-			for (size_t j = 0; j < GCAP; j++) if (j < n) vassert(fin[j] == (unsigned char)(src[j] ^ ref_ks(K, j)));
-			vreach();
-			if (!PINNED && n == MSGCAP && tagBytes == TAGCAP && nparts == 3) vreach();
+			for (size_t j = 0; j < GCAP; j++) if (j < n && j < fin.size()) vassert(fin[j] == (unsigned char)(src[j] ^ ref_ks(K, j)));
+			if (!PINNED || PTOTAL >= TAGCAP) vreach();
+			if (!PINNED && n == MSGCAP && (TAGB || tagBytes == TAGCAP) && (GCMPHASE == 2 || nparts == 3)) vreach();
 			if (!PINNED && n == 0) vreach();
 		}
-		else vreach();
+		else if (!PINNED || PTOTAL >= TAGCAP) vreach();
 	}
 #endif
 #elif OP == 5
